@@ -62,7 +62,23 @@ def namespace():
     t['log10'] = lambda x: shim._ew1(lambda e: shim.mk('/', shim.mk('ln', shim._lift(e)), ln10), x)
     F = shim._NS('torch.nn.functional'); F.__dict__['conv2d'] = conv2d
     ns['F'] = F
+    nn = shim._NS('torch.nn')
+    nn.__dict__['MSELoss'] = lambda reduction='mean': _mse(reduction)
+    nn.__dict__['L1Loss'] = lambda reduction='mean': _l1(reduction)
+    nn.__dict__['Upsample'] = Upsample
+    t['nn'] = nn
     return ns
+
+
+class Upsample:
+    """torch.nn.Upsample(scale_factor = 0.5, mode = 'nearest') on NCHW: output side floor(n / 2), source index 2 i"""
+    def __init__(self, scale_factor=None, mode='nearest', **k):
+        if scale_factor != 0.5 or mode != 'nearest' or k:
+            raise shim.TraceError('Upsample: unsupported configuration')
+
+    def __call__(self, x):
+        a = _np.asarray(x)
+        return shim.wrap(a[..., 0:2 * (a.shape[-2] // 2):2, 0:2 * (a.shape[-1] // 2):2])
 
 
 class Stub:
@@ -134,5 +150,20 @@ def trace():
     ns = namespace()
     shim.load('odak/learn/perception/image_quality_losses.py', ['forward'], ns, cls='PSNR')
     p = shim.sym('p', (2, 2)); tt = shim.sym('t', (2, 2))
+    # ---------------- metameric_loss_stats of MetamericLoss (no radial weights) and MetamericLossUniform:
+    # two statistics maps, of 2 and 1 entries
+    SA = shim.names('sa', (1, 1, 1, 2)) + shim.names('sb', (1, 1, 1, 1)); TA = shim.names('ta', (1, 1, 1, 2)) + shim.names('tb', (1, 1, 1, 1))
+    sa = [shim.sym('sa', (1, 1, 1, 2)), shim.sym('sb', (1, 1, 1, 1))]; ta = [shim.sym('ta', (1, 1, 1, 2)), shim.sym('tb', (1, 1, 1, 1))]
+    ns2 = namespace()
+    shim.load('odak/learn/perception/metameric_loss.py', ['metameric_loss_stats'], ns2, cls='MetamericLoss')
+    st = Stub(); st.use_radial_weight = False
+    g.add('met_stats_t', SA + TA, _scalar(ns2['metameric_loss_stats'](st, sa, ta, [0.5, 0.5])))
+    ns2 = namespace()
+    shim.load('odak/learn/perception/metameric_loss_uniform.py', ['metameric_loss_stats'], ns2, cls='MetamericLossUniform')
+    g.add('metu_stats_t', SA + TA, _scalar(ns2['metameric_loss_stats'](Stub(), sa, ta)))
+    # ---------------- multi_scale_total_variation_loss (2 levels, 1 x 1 x 2 x 4 frame)
+    ns2 = namespace()
+    shim.load('odak/learn/tools/loss.py', ['total_variation_loss', 'multi_scale_total_variation_loss'], ns2)
+    g.add('mstv_t', shim.names('f', (1, 1, 2, 4)), _scalar(ns2['multi_scale_total_variation_loss'](shim.sym('f', (1, 1, 2, 4)), levels=2)))
     g.add('psnr_t', P22 + T22 + ['peak'], _scalar(ns['forward'](Stub(), p, tt, peak_value=shim.var('peak'))))
     return g
